@@ -39,6 +39,105 @@ def grid(C):
     return pts
 
 
+def call_grid(rng, codec, k, n):
+    """every API function x {NULL, encoder, decoder, encoder+decoder session} x boundary ESIs x the pointers the API tests"""
+    esis = sorted({0, k - 1, k, n - 1, n, n + 1, 2 ** 31, U} - {-1})
+    calls = []
+    for s in "0edb":
+        cs = ["B:%d" % e for e in esis] + ["D:0:%d" % e for e in esis] + ["D:1:0", "D:1:%d" % n, "S:1", "C", "T", "K:1:1", "K:0:1", "K:1:0", "K:0:0",
+              "G:1:0:4", "G:1:1:4", "G:1:0:2", "G:1:0:8", "G:2:0:4", "G:2:1:4", "G:2:0:0", "G:7:0:4", "G:0:0:4"]
+        if s in "0e":
+            cs += ["S:0", "F"]        # on decoder sessions these are valid and END the protocol (finish is the last step; the usability cycle below
+                                      # calls of_finish_decoding itself, and the session streams exercise of_set_available_symbols): only refused ones here
+        if codec == 3:
+            cs.append("G:1024:0:1")
+        elif s != "0":
+            cs.append("G:1024:0:4")
+        rng.shuffle(cs)
+        calls += ["%s/%s" % (s, x) for x in cs]
+    rng.shuffle(calls)
+    return calls
+
+
+def in_domain(tok, codec, k, n):
+    """the documented domain, from the property text (independent of coq/ApiArgs.v)"""
+    s, call = tok.split("/")
+    f = call.split(":")
+    if s == "0":
+        return False
+    enc, dec = s in "eb", s in "db"
+    if f[0] == "B":
+        return enc and k <= int(f[1]) <= n - 1
+    if f[0] == "D":
+        return dec and f[1] == "0" and 0 <= int(f[2]) <= n - 1
+    if f[0] == "S":
+        return dec and f[1] == "0"
+    if f[0] in "FCT":
+        return dec
+    if f[0] == "K":
+        return not (f[1] == "1" and f[2] == "1")
+    if f[0] == "G":
+        return (f[1] in ("1", "2") and f[2] == "0" and f[3] == "4") or (f[1] == "1024" and codec == 3)
+    return False
+
+
+def api_calls(c, C, exe, env, points):
+    """second half of C09: argument checks of every API function, C vs coq/ApiArgs.v vs the documented domain"""
+    pts = [p for p in points if p[1] + p[2] <= 120]
+    pts = c.rng.sample(pts, min(len(pts), 40 if c.tier == "quick" else 400))
+    reqs, grids = [], []
+    for (codec, k, r, L, p1, p2) in pts:
+        g = call_grid(c.rng, codec, k, k + r)
+        grids.append(g)
+        reqs.append("H %d %d %d %d %d %d %s" % (codec, k, r, L, p1, p2, " ".join(g)))
+    ans, cr = vlib.run_driver(exe, reqs, prefix="R", env=env)
+    mlines = ["A %d %d %d %s" % (p[0], p[1], p[2], " ".join(g)) for p, g in zip(pts, grids)]
+    try:
+        rc, mout, _ = vlib.sh([vlib.ocaml_model()], input="\n".join(mlines) + "\n", timeout=600)
+        ml = mout.splitlines()
+    except vlib.BuildError as e:
+        c.proof_failed.append({"model_build": str(e)[-1500:]})
+        ml = []
+    ncalls = 0
+    for i, (p, g, rq, a) in enumerate(zip(pts, grids, reqs, ans)):
+        codec, k, r, L, p1, p2 = p
+        if a.startswith(("CRASH", "SKIPPED")) or " H" not in a:
+            c.violation("an API call with a bad argument crashed the library (codec=%d k=%d r=%d): %s" % (codec, k, r, a[:200]), "args-crash", {"request": rq})
+            continue
+        toks = a.split()
+        st = toks[1][1:].split(",")
+        mv = ml[i].split(",") if i < len(ml) else []
+        for j, (tok, s) in enumerate(zip(g, st)):
+            ncalls += 1
+            fn = tok.split("/")[1][0]
+            dom = in_domain(tok, codec, k, k + r)
+            c.dist("api:%s:%s" % (fn, "inside" if dom else "outside"))
+            # statuses a call inside its domain may return: the completion query answers; finish may report FAILURE; the two RS codecs answer
+            # of_get_source_symbols_tab with OF_STATUS_ERROR until decoding is complete; of_set_control_parameter's own argument checks
+            good = (s in ("100", "101")) if fn == "C" else (s in ("0", "1") if fn == "F" else (s in ("0", "2") if fn == "T" else s == "0"))
+            bad = (s == "101") if fn == "C" else (s not in ("0", "1", "100"))
+            if dom and not good:
+                c.violation("%s on codec %d (k=%d, n=%d) is inside the documented domain but returned %s" % (tok, codec, k, k + r, s), "args", {"request": rq, "call": tok, "c_answer": a[:400]})
+            if not dom and not bad:
+                c.violation("%s on codec %d (k=%d, n=%d) is outside the documented domain but returned %s (no error)" % (tok, codec, k, k + r, s), "args", {"request": rq, "call": tok, "c_answer": a[:400]})
+            if j < len(mv):
+                want = {"D": ("0", "1", "100", "101") if fn in "FC" else (("0", "2") if fn == "T" else ("0",)), "3": ("3",), "2": ("2",), "f": ("101",)}[mv[j]]
+                if s not in want:
+                    c.proof_failed.append({"correspondence": "api-args", "call": tok, "codec": codec, "k": k, "r": r, "c_status": s, "model_verdict": mv[j], "request": rq[:300]})
+                    break
+        if len(mv) != len(g):
+            c.proof_failed.append({"correspondence": "api-args", "request": rq[:300], "model": (ml[i] if i < len(ml) else "")[:300]})
+        if toks[2] != "U111":
+            c.violation("after the bad calls the sessions are no longer usable (encoder, decoder, encoder+decoder: %s) codec=%d k=%d r=%d" % (toks[2], codec, k, r),
+                        "args", {"request": rq, "c_answer": a[:400]})
+        mk, mn = [int(x) for x in toks[3][1:].split(",")]
+        wk, wn = {1: (C["rs28_max_k"], C["rs28_max_n"]), 2: (2 ** p1 - 1, 2 ** p1 - 1), 3: (C["ldpc_max_k"], C["ldpc_max_n"])}[codec]
+        if (mk, mn) != (wk, wn):
+            c.violation("of_get_control_parameter reports MAX_K=%d MAX_N=%d for codec %d, the limits enforced are %d, %d" % (mk, mn, codec, wk, wn), "args-limits", {"request": rq})
+    c.cov["api_calls"] = ncalls
+    return ncalls
+
+
 def run(c):
     g = gen_consts.generate(c.snap)
     C = g["consts"]
@@ -108,12 +207,16 @@ def run(c):
         usable = a.split()[2]
         if set(flags) != {"1"} or usable != "U1":
             c.violation("corrupted calls: error flags %s (all must be 1), session usable afterwards: %s" % (flags, usable), "args", {"request": rq, "c_answer": a})
-    c.cov["evaluations"] = len(pts) + len(sreq) + len(greq)
+    n_api = api_calls(c, C, exe, env, [p for p in cyc if p[1] + p[2] <= 300])
+    c.cov["evaluations"] = len(pts) + len(sreq) + len(greq) + n_api
     c.cov["distinct_nontrivial"] = len(set(pts))
     c.cov["traces_validated_against_impl"] = len(pts)
     c.cov["exhaustive"] = True
     c.cov["rule"] = ("grid: per codec, k and r over {0,1,2,15,16,limit-1,limit,limit+1,2^16,2^31-1,2^31,2^32-1,...} x L in {0,1,4} x m in {0,1,3,4,5,7,8,9,16} "
                      "x N1 in {0..4,255,r-1,r,r+1} x seed in {-1,0,1,2^31-2,2^31-1}; every point evaluated on the model and on the C (encoder and decoder session); "
-                     "accepted points followed by a life cycle and by 13 corrupted calls; all points distinct and non-trivial")
+                     "accepted points followed by a life cycle and by 13 corrupted calls; all points distinct and non-trivial. API arguments: for sampled accepted "
+                     "configurations every API function is called on a NULL / encoder / decoder / encoder+decoder session with ESIs {0,k-1,k,n-1,n,n+1,2^31,2^32-1} and "
+                     "each tested pointer NULL or not (about 230 calls per configuration, shuffled); status compared with coq/ApiArgs.v and with the documented domain; "
+                     "afterwards all three sessions must still encode / decode the block")
     c.cov["samples"] = [reqs[0], reqs[len(reqs) // 2], greq[0] if greq else ""]
     c.trusted = vlib.BASE_TRUST + ["Params.v: hand-written mirror of the checks of the three set_fec_parameters functions; limits from gen/GenConsts.v (compiler reads the headers)"]
